@@ -290,6 +290,10 @@ func runC31(c *eng.Ctx) {
 							return true
 						}
 					}
+					// the index database is a directory (leveldb.OpenFile): only RemoveAll drops it
+					if sfx == ".ldb" && !eng.CalleeIs(call, "os.RemoveAll") {
+						return true
+					}
 					dropped[sfx] = true
 				}
 				return true
